@@ -34,7 +34,7 @@ type gen struct {
 	final   uint64
 	cand    map[[2]uint64][]uint64 // (account, nonce) -> tx ids generated for it
 	sent    map[uint64]bool
-	length  [maxAccts]int // believed number of pooled txs per account
+	pool    [maxAccts][]*txSpec // believed pooled txs per account, by nonce
 	nextID  uint64
 	nextBlk uint64
 }
@@ -115,26 +115,47 @@ func (g *gen) emitAdd(t *txSpec) {
 	g.sent[t.id] = true
 }
 
+func (g *gen) spentGuess(a int) uint64 {
+	var s uint64
+	for _, t := range g.pool[a] {
+		s += t.cost
+	}
+	return s
+}
+
 func (g *gen) opAdd() {
 	a := g.r.Intn(g.naccts)
 	state := g.head.nonces[a]
-	next := state + uint64(g.length[a])
+	next := state + uint64(len(g.pool[a]))
 	switch k := g.r.Intn(20); {
 	case k < 11: // extend
 		t := g.freshTx(a, next)
-		g.emitAdd(t)
-		g.length[a]++
-	case k < 14 && g.length[a] > 0: // replace
-		n := state + uint64(g.r.Intn(g.length[a]))
-		ids := g.cand[[2]uint64{uint64(a), n}]
-		if len(ids) == 0 {
-			return
+		if bal := g.head.bals[a]; g.r.Chance(9, 10) && bal > g.spentGuess(a) && t.cost > bal-g.spentGuess(a) {
+			// mostly affordable: fall back to the cheapest fees
+			t.fee, t.bfee = feePalette[0], bfeePalette[0]
+			t.cost = g.cost(t.fee, t.bfee)
 		}
-		g.emitAdd(g.replacement(g.byID(ids[len(ids)-1])))
-	case k < 16: // gapped
+		if g.r.Chance(9, 10) && t.tip < g.tip {
+			t.tip = g.tip
+		}
+		g.emitAdd(t)
+		if t.tip >= g.tip && g.spentGuess(a)+t.cost <= g.head.bals[a] && len(g.pool[a]) < 16 {
+			g.pool[a] = append(g.pool[a], t)
+		}
+	case k < 15 && len(g.pool[a]) > 0: // replace
+		i := g.r.Intn(len(g.pool[a]))
+		t := g.replacement(g.pool[a][i])
+		g.emitAdd(t)
+		old := g.pool[a][i]
+		thr := func(x uint64) uint64 { return x * (100 + g.bump) / 100 }
+		if t.tip >= g.tip && t.tip > old.tip && t.fee > old.fee && t.bfee > old.bfee && t.tip >= thr(old.tip) && t.fee >= thr(old.fee) &&
+			t.bfee >= thr(old.bfee) && g.spentGuess(a)-old.cost+t.cost <= g.head.bals[a] {
+			g.pool[a][i] = t
+		}
+	case k < 17: // gapped
 		t := g.freshTx(a, next+1+uint64(g.r.Intn(2)))
 		g.emitAdd(t)
-	case k == 16 && state > 0: // stale
+	case k == 17 && state > 0 && g.r.Chance(1, 2): // stale
 		g.emitAdd(g.freshTx(a, state-1))
 	case k == 17 && g.nextID > 0: // repeat a known tx
 		g.emitAdd(g.byID(uint64(g.r.Intn(int(g.nextID)))))
@@ -155,8 +176,18 @@ func (g *gen) opAdd() {
 }
 
 func (g *gen) opTip() {
-	t := tipPalette[g.r.Intn(len(tipPalette))]
+	t := tipPalette[g.r.Intn(4)]
 	g.ops = append(g.ops, L(I(1), U(t)))
+	if t > g.tip {
+		for a := 0; a < g.naccts; a++ {
+			for i, x := range g.pool[a] {
+				if x.tip < t {
+					g.pool[a] = g.pool[a][:i]
+					break
+				}
+			}
+		}
+	}
 	g.tip = t
 }
 
@@ -168,13 +199,13 @@ func (g *gen) typicalCost(a int) uint64 {
 }
 
 func (g *gen) pickBalance(a int) uint64 {
-	switch g.r.Intn(6) {
+	switch g.r.Intn(8) {
 	case 0:
 		return uint64(g.r.Intn(5000))
-	case 1:
+	case 1, 2, 3:
 		return 1 << 50
 	default:
-		return g.typicalCost(a) * uint64(1+g.r.Intn(6))
+		return g.typicalCost(a) * uint64(2+g.r.Intn(7))
 	}
 }
 
@@ -268,15 +299,15 @@ func (g *gen) opReset() {
 	g.ops = append(g.ops, L(I(2), U(nb.id), U(g.final)))
 	// re-estimate what is pooled
 	for a := 0; a < g.naccts; a++ {
-		old := g.head.nonces[a] + uint64(g.length[a])
-		if nb.nonces[a] >= old {
-			g.length[a] = 0
-		} else {
-			g.length[a] = int(old - nb.nonces[a])
-			if g.length[a] > 6 {
-				g.length[a] = 6
+		var keep []*txSpec
+		var spent uint64
+		for _, t := range g.pool[a] {
+			if t.nonce == nb.nonces[a]+uint64(len(keep)) && spent+t.cost <= nb.bals[a] {
+				keep = append(keep, t)
+				spent += t.cost
 			}
 		}
+		g.pool[a] = keep
 	}
 	g.head = nb
 }
@@ -357,7 +388,7 @@ func genCase(r *Rng, tier string, style int) Sx {
 	g.naccts = 2 + r.Intn(3)
 	g.bump = []uint64{10, 25, 100, 1}[r.Intn(4)]
 	g.datacap = uint64(3+r.Intn(6))*141376 + uint64(r.Intn(1000))
-	g.tip = tipPalette[r.Intn(3)]
+	g.tip = tipPalette[r.Intn(2)]
 	g.multi = style%2 == 0
 	g.chainAc = r.Intn(g.naccts)
 	tip0 := g.tip
